@@ -41,6 +41,9 @@ type mcase struct {
 	Pts       []string // explicit list of history points
 	// Envs, if set, builds complete envelopes (several messages, other senders than Sender) instead of Build
 	Envs func(sc *mScene) []*wire.Envelope
+	// Follow, if set, builds further envelopes 100 ms after the first ones were delivered (it can look at
+	// what the victim has published meanwhile)
+	Follow func(sc *mScene) []*wire.Envelope
 }
 
 // lockedAt / subsAt: what the history points provide.
@@ -232,8 +235,22 @@ var propMuts = []propMut{
 	{Name: "peers-one", On: "peers", F: func(_ *mScene, x mIdent, p client.ChannelProposal) {
 		setPeers(p, []map[wallet.BackendID]wire.Address{x.Wire})
 	}},
-	{Name: "participant-empty", On: "ledger", C12: true, F: func(_ *mScene, _ mIdent, p client.ChannelProposal) {
+	// (A2) an empty - decoded: non-nil - participant / proposer address map
+	{Name: "participant-empty", On: "ledger", F: func(_ *mScene, _ mIdent, p client.ChannelProposal) {
 		p.(*client.LedgerChannelProposalMsg).Participant = map[wallet.BackendID]wallet.Address{}
+	}},
+	{Name: "proposer-empty", On: "virtual", F: func(_ *mScene, _ mIdent, p client.ChannelProposal) {
+		p.(*client.VirtualChannelProposalMsg).Proposer = map[wallet.BackendID]wallet.Address{}
+	}},
+	// (A7) the funding agreement of a ledger channel proposal: one column for two participants; another sum
+	{Name: "fa-cols1", On: "ledger", F: func(_ *mScene, _ mIdent, p client.ChannelProposal) {
+		p.Base().FundingAgreement = channel.Balances{{mBig(10)}}
+	}},
+	{Name: "fa-sum-differs", On: "ledger", F: func(_ *mScene, _ mIdent, p client.ChannelProposal) {
+		p.Base().FundingAgreement = channel.Balances{{mBig(0), mBig(600)}}
+	}},
+	{Name: "fa-rows2", On: "ledger", F: func(_ *mScene, _ mIdent, p client.ChannelProposal) {
+		p.Base().FundingAgreement = channel.Balances{{mBig(5), mBig(5)}, {mBig(1), mBig(1)}}
 	}},
 	// sub-channel
 	{Name: "parent-unknown", On: "sub", F: func(sc *mScene, _ mIdent, p client.ChannelProposal) {
@@ -308,6 +325,14 @@ var propMuts = []propMut{
 		m := sc.vmap()
 		m[1] = 2
 		p.(*client.VirtualChannelProposalMsg).IndexMaps[1] = m
+	}},
+	// (A4) a permutation, but the receiver's own index does not map to its own index in its parent
+	{Name: "idxmap-swapped", On: "virtual", F: func(sc *mScene, _ mIdent, p client.ChannelProposal) {
+		p.(*client.VirtualChannelProposalMsg).IndexMaps[1] = []channel.Index{sc.vIdx, 1 - sc.vIdx}
+	}},
+	{Name: "idxmaps-both-swapped", On: "virtual", F: func(sc *mScene, _ mIdent, p client.ChannelProposal) {
+		q := p.(*client.VirtualChannelProposalMsg)
+		q.IndexMaps = [][]channel.Index{{1, 0}, {sc.vIdx, 1 - sc.vIdx}}
 	}},
 	{Name: "idxmap-dup", On: "virtual", F: func(sc *mScene, _ mIdent, p client.ChannelProposal) {
 		p.(*client.VirtualChannelProposalMsg).IndexMaps[1] = []channel.Index{sc.vIdx, sc.vIdx}
@@ -666,6 +691,8 @@ func setLedgerBals(u *updSpec, b0, b1 int64) {
 }
 
 var fundMuts = []autoMut{
+	// (A10) the honest funding update, but it also sets the parent final
+	{Name: "final", F: func(_ *mScene, u *updSpec, _ *channel.SubAlloc) { u.St.IsFinal = true }},
 	// the victim is index 1 and owes 4, M is index 0 and owes 2 (parent (10,10) before)
 	{Name: "debit-victim-all", F: func(_ *mScene, u *updSpec, _ *channel.SubAlloc) { mShift(u, +2) }},
 	{Name: "debit-peer-all", F: func(_ *mScene, u *updSpec, _ *channel.SubAlloc) { mShift(u, -4) }},
@@ -729,6 +756,7 @@ func (sc *mScene) settleBase() *updSpec {
 }
 
 var settleMuts = []autoMut{
+	{Name: "final", F: func(_ *mScene, u *updSpec, _ *channel.SubAlloc) { u.St.IsFinal = true }},
 	// the final sub-channel balances are (1,5): M gets 1, the victim 5
 	{Name: "credit-swapped", F: func(_ *mScene, u *updSpec, _ *channel.SubAlloc) { mShift(u, +4) }},
 	{Name: "credit-peer-all", F: func(_ *mScene, u *updSpec, _ *channel.SubAlloc) { mShift(u, +5) }},
@@ -1093,6 +1121,7 @@ type hubMut struct {
 }
 
 var hubFundMuts = []hubMut{
+	{Name: "final", F: func(_ *mScene, f *vfundSpec) { f.U.St.IsFinal = true }},
 	// honest: M (index 0) pays Alice's 5, the hub (index 1) pays Bob's 3
 	{Name: "debit-hub-all", F: func(_ *mScene, f *vfundSpec) { mShift(f.U, +5) }},
 	{Name: "debit-peer-all", F: func(_ *mScene, f *vfundSpec) { mShift(f.U, -3) }},
@@ -1141,6 +1170,7 @@ type hubSettleMut struct {
 }
 
 var hubSettleMuts = []hubSettleMut{
+	{Name: "final", F: func(_ *mScene, f *vsettleSpec) { f.U.St.IsFinal = true }},
 	// honest: the final virtual balances are (3,5): M gets 3, the hub gets Bob's 5
 	{Name: "credit-swapped", F: func(_ *mScene, f *vsettleSpec) { mShift(f.U, +2) }},
 	{Name: "credit-peer-all", F: func(_ *mScene, f *vsettleSpec) { mShift(f.U, +5) }},
@@ -1383,6 +1413,7 @@ func allCases() []mcase {
 	out = append(out, hubTwoCases()...)
 	out = append(out, ownCases()...)
 	out = append(out, hubPairCases()...)
+	out = append(out, a1Cases()...)
 	out = append(out, otherCases()...)
 	return out
 }
